@@ -74,7 +74,7 @@ func packageTo(y, format string, w io.Writer, tweak func(*nfpm.Info)) (err error
 
 func c06(run *ev.Run, tier string) {
 	ncfg := ncases(12, 120, tier)
-	run.Rule = "(a) write faults: for each generated config x 5 formats x {unsigned, signed} a clean run records the N writes of the output stream, then EVERY write index k in [0,N) is replayed with a writer that fails from write k on (error / partial accept + io.ErrShortWrite) and with one that fails at write k only: Package must return a non-nil error whenever the fault was reached; (b) source faults: every file reference of a config (content sources, scripts, changelog, key files) removed one at a time; (c) failing sign callbacks and unusable key files; (d) every invalid-setting class; (e) the built nfpm binary: target = symlink to /dev/full, missing sources with target = file / directory / blank, must exit non-zero, print the cause and leave nothing at the target. non-trivial = fault that was actually reached (write index < N) or a removed reference that the format reads; distinct = (config, format, variant, k)"
+	run.Rule = "(a) write faults: for each generated config x 5 formats x {unsigned, signed} a clean run records the N writes of the output stream, then EVERY write index k in [0,N) is replayed with a writer that fails from write k on (error / partial accept + io.ErrShortWrite) and with one that fails at write k only: Package must return a non-nil error whenever the fault was reached; (b) source faults: every file reference of a config (content sources, scripts, changelog, key files) removed one at a time; (c) failing sign callbacks and unusable key files; (d) every invalid-setting class; (e) the built nfpm binary: target = symlink to /dev/full, missing sources with target = file / directory / blank / pre-existing file, and (strace -e inject) ENOSPC on the k-th write to the target and EIO on the k-th read of a source file: it must exit non-zero, print the cause and leave nothing at the target. non-trivial = fault that was actually reached (write index < N) or a removed reference that the format reads; distinct = (config, format, variant, k)"
 	run.SetExhaustive(true)
 	var injected, reached, srcFaults, signFaults, invalids, cliRuns int64
 	maxWrites := 0
@@ -629,45 +629,82 @@ func c06CLI(run *ev.Run, bin, tier string, cliRuns *int64) {
 			run.Violate("C06/cli/"+f+"/invalid-config-not-loud", map[string]any{"exit": code, "output": ev.Short(out, 300), "target_exists": err == nil})
 		}
 	}
-	// (4) strace fault injection on the k-th write to the target (thorough)
-	if tier == "thorough" && have("strace") {
-		c06Strace(run, bin, dir, mk, exts, cliRuns)
+	// (4) strace fault injection: ENOSPC on the k-th write to the target, EIO on the
+	// k-th read of a source file
+	if have("strace") {
+		ks := []int{1, 2}
+		if tier == "thorough" {
+			ks = []int{1, 2, 3, 4, 5, 6, 8, 12, 20, 40}
+		}
+		c06Strace(run, bin, dir, mk, exts, cliRuns, ks)
 	}
 }
 
-func c06Strace(run *ev.Run, bin, dir string, mk func(bool) *gen.Spec, exts map[string]string, cliRuns *int64) {
-	probe, _, code, err := runCmd(nil, dir, nil, "strace", "-o", "/dev/null", "-e", "trace=write", "true")
-	_ = probe
+func c06Strace(run *ev.Run, bin, dir string, mk func(bool) *gen.Spec, exts map[string]string, cliRuns *int64, ks []int) {
+	_, _, code, err := runCmd(nil, dir, nil, "strace", "-o", "/dev/null", "-e", "trace=write", "true")
 	if err != nil || code != 0 {
 		run.Set("strace_injection", "strace present but not usable in this sandbox")
 		return
 	}
-	n := 0
+	nw, nr, reachedW, reachedR := 0, 0, 0, 0
 	for _, f := range formats {
-		for k := 1; k <= 6; k++ {
-			wd := filepath.Join(dir, fmt.Sprintf("strace-%s-%d", f, k))
-			_ = os.MkdirAll(wd, 0o755)
-			cfgp := filepath.Join(wd, "nfpm.yaml")
-			_ = os.WriteFile(cfgp, []byte(mk(true).YAML()), 0o644)
-			target := filepath.Join(wd, "out"+exts[f])
-			so, se, code, err := runCmd(nil, wd, nil, "strace", "-f", "-o", "/dev/null", "-P", target, "-e", "trace=write",
-				"-e", fmt.Sprintf("inject=write:error=ENOSPC:when=%d", k), bin, "package", "-f", cfgp, "-p", f, "-t", target)
-			atomic.AddInt64(cliRuns, 1)
-			if err != nil {
-				continue
-			}
-			n++
-			out := string(so) + string(se)
-			_, lerr := os.Lstat(target)
-			run.Case(fmt.Sprintf("cli|strace|%s|%d", f, k), code != 0)
-			if code == 0 {
-				// fewer than k writes hit the target: nothing was injected
-				continue
-			}
-			if lerr == nil {
-				run.Violate("C06/cli/"+f+"/strace-enospc-target-left-behind", map[string]any{"k": k, "exit": code, "output": ev.Short(out, 300)})
+		for _, k := range ks {
+			for _, side := range []string{"write-to-target", "read-from-source"} {
+				wd := filepath.Join(dir, fmt.Sprintf("strace-%s-%s-%d", side, f, k))
+				_ = os.MkdirAll(wd, 0o755)
+				spec := mk(true)
+				// a private copy of the big source so that -P matches only it
+				src := filepath.Join(wd, "big-src.bin")
+				_ = os.WriteFile(src, (&gen.Node{Size: 2*1024*1024 + 5, Seed: uint64(k) + 77}).Content(), 0o644)
+				for _, c := range spec.Contents {
+					if strings.HasSuffix(c.Dst, "big.bin") {
+						c.Src = src
+					}
+				}
+				cfgp := filepath.Join(wd, "nfpm.yaml")
+				_ = os.WriteFile(cfgp, []byte(spec.YAML()), 0o644)
+				target := filepath.Join(wd, "out"+exts[f])
+				trace := filepath.Join(wd, "strace.out")
+				watch, inj := target, fmt.Sprintf("inject=write:error=ENOSPC:when=%d", k)
+				tr := "trace=write"
+				if side == "read-from-source" {
+					watch, inj, tr = src, fmt.Sprintf("inject=read:error=EIO:when=%d", k), "trace=read"
+				}
+				so, se, code, err := runCmd(nil, wd, nil, "strace", "-f", "-o", trace, "-P", watch, "-e", tr, "-e", inj,
+					bin, "package", "-f", cfgp, "-p", f, "-t", target)
+				atomic.AddInt64(cliRuns, 1)
+				if err != nil {
+					continue
+				}
+				tb, _ := os.ReadFile(trace)
+				injected := bytes.Contains(tb, []byte("(INJECTED)"))
+				if side == "read-from-source" {
+					nr++
+				} else {
+					nw++
+				}
+				run.Case(fmt.Sprintf("cli|strace|%s|%s|%d", side, f, k), injected)
+				if !injected {
+					continue // fewer than k such system calls: nothing was injected
+				}
+				if side == "read-from-source" {
+					reachedR++
+				} else {
+					reachedW++
+				}
+				out := string(so) + string(se)
+				_, lerr := os.Lstat(target)
+				d := map[string]any{"format": f, "k": k, "exit": code, "output": ev.Short(out, 300), "target_still_exists": lerr == nil}
+				switch {
+				case code == 0:
+					run.Violate("C06/cli/"+f+"/strace-"+side+"-fault-exit-0", d)
+				case lerr == nil:
+					run.Violate("C06/cli/"+f+"/strace-"+side+"-fault-target-left-behind", d)
+				case strings.TrimSpace(out) == "":
+					run.Violate("C06/cli/"+f+"/strace-"+side+"-fault-cause-not-printed", d)
+				}
 			}
 		}
 	}
-	run.Set("strace_injection", fmt.Sprintf("%d runs with inject=write:error=ENOSPC:when=k on the target path", n))
+	run.Set("strace_injection", fmt.Sprintf("%d runs with write:ENOSPC on the target (%d reached), %d runs with read:EIO on a source file (%d reached)", nw, reachedW, nr, reachedR))
 }
